@@ -242,6 +242,41 @@ func init() {
 				cases, results := c.replay("engine", r.cases, replayOpts{})
 				c.judge("engine", cases, results, func(cs, res map[string]J) string { in, _ := res["input"].(string); return in })
 			}
+			// instruction level: the head phase of the real VM on the activations of GenHead's programs and of seeded random programs,
+			// validated by TLC against ZipVM.tla (conformance) and against unification with the decompiled head (meaning)
+			hz := c.mcHolds("GenHead", "GenHead.cfg", tlcOpts{})
+			// a random program may build a cyclic term (no occurs check: undefined in ISO) and make the interpreter overflow its stack or
+			// run away: nothing that the instruction-level records speak about (such programs are judged by the engine traces of C01)
+			c.crashDiscard = func(status, detail string) bool { return true }
+			zt := c.recordTraces("zipvm", hz.cases, replayOpts{}, func(cs map[string]J) map[string]J { return map[string]J{} })
+			genz := filepath.Join(c.work, "zipvm-gen.ndjson")
+			nz := 300
+			if c.tier == "thorough" {
+				nz = 5000
+			}
+			c.vhRun("gen", "engine", "--seed", strconv.FormatInt(c.seed, 10), "--n", strconv.Itoa(nz), "--out", genz, "--opt", "feat=")
+			zt = append(zt, c.recordTraces("zipvm", genz, replayOpts{timeout: 8 * time.Second}, func(cs map[string]J) map[string]J { return map[string]J{} })...)
+			c.crashDiscard = nil
+			c.validateTraces("zipvm", "ZipVMTrace", "ZipVMTrace.cfg", zt, traceOpts{})
+			// (records are independent and a failing activation stays a valid run when a constant is renamed: the corruption that
+			// must be rejected is a flipped outcome, alternately a shortened instruction path)
+			flip := 0
+			c.bindingSelfTestWith("ZipVMTrace", "ZipVMTrace.cfg", zt, 4, func(line string) (string, bool) {
+				flip++
+				switch {
+				case flip%2 == 1 && strings.Contains(line, `"ok":false`):
+					return strings.Replace(line, `"ok":false`, `"ok":true`, 1), true
+				case flip%2 == 1 && strings.Contains(line, `"ok":true`):
+					return strings.Replace(line, `"ok":true`, `"ok":false`, 1), true
+				case strings.Contains(line, `"path":["`):
+					i := strings.Index(line, `"path":["`) + len(`"path":[`)
+					j := i + strings.Index(line[i:], `"`+",") // end of the first instruction name
+					if j > i && strings.Index(line[i:], "]") > j-i {
+						return line[:i] + line[j+2:], true // the first instruction dropped from the path
+					}
+				}
+				return "", false
+			})
 			// every argument kind of a stored clause against every way the call can write its argument (GenHead.tla), the lists of
 			// one-letter atoms of the clauses written as lists and as double-quoted strings
 			h := c.mcHolds("GenHead", "GenHead.cfg", tlcOpts{})
